@@ -63,6 +63,7 @@ impl<R: Read + Seek> ReadBox<&mut R> for IlstBox {
                     "ilst box contains a box with a larger size than it",
                 ));
             }
+            check_child_size(s)?;
 
             match name {
                 BoxType::NameBox => {
@@ -139,6 +140,7 @@ impl<R: Read + Seek> ReadBox<&mut R> for IlstItemBox {
                     "ilst item box contains a box with a larger size than it",
                 ));
             }
+            check_child_size(s)?;
 
             match name {
                 BoxType::DataBox => {
